@@ -311,6 +311,21 @@ def _open_call_token(
 ) -> tuple[bytes, str, bytes, bytes, bytes, str]:
     """Open and verify a call token.
 
+    Thin wrapper over :func:`_open_call_token_timestamped` for callers that
+    have no use for the creation time.  Arguments, failure modes and the
+    first six result fields are identical.
+    """
+    return _open_call_token_timestamped(token, token_key, aad, token_ttl)[:6]
+
+
+def _open_call_token_timestamped(
+    token: bytes,
+    token_key: bytes,
+    aad: bytes,
+    token_ttl: int = 0,
+) -> tuple[bytes, str, bytes, bytes, bytes, str, int]:
+    """Open and verify a call token, also returning when it was minted.
+
     Args:
         token: The opaque token produced by :func:`_seal_call_token`.
         token_key: 32-byte master AEAD key.
@@ -319,7 +334,10 @@ def _open_call_token(
 
     Returns:
         ``(call_state_bytes, call_state_type, schema_bytes, input_schema_bytes,
-        call_id, stream_id)``
+        call_id, stream_id, created_at)``.  ``created_at`` (seconds since the
+        epoch, authenticated like everything else inside the seal) is what
+        lets the call-state cache expire a re-cached call together with the
+        token it was opened from.
 
     Raises:
         _RpcHttpError: On malformed, tampered, expired, or cross-principal
@@ -358,10 +376,9 @@ def _open_call_token(
     if payload_end != len(plaintext):
         raise _RpcHttpError(RuntimeError("Malformed call token"), status_code=HTTPStatus.BAD_REQUEST)
 
-    if token_ttl > 0:
-        created_at = struct.unpack_from("<Q", plaintext, 0)[0]
-        if int(time.time()) - created_at > token_ttl:
-            raise _RpcHttpError(RuntimeError("Call token expired"), status_code=HTTPStatus.BAD_REQUEST)
+    created_at: int = struct.unpack_from("<Q", plaintext, 0)[0]
+    if token_ttl > 0 and int(time.time()) - created_at > token_ttl:
+        raise _RpcHttpError(RuntimeError("Call token expired"), status_code=HTTPStatus.BAD_REQUEST)
 
     return (
         call_state_bytes,
@@ -370,6 +387,7 @@ def _open_call_token(
         input_schema_bytes,
         call_id,
         stream_id_bytes.decode(),
+        created_at,
     )
 
 
@@ -394,7 +412,7 @@ class _ResolvedCall:
     :meth:`StreamState.bind_call_state` documents.
     """
 
-    __slots__ = ("call_state", "input_schema", "output_schema", "stream_id")
+    __slots__ = ("call_state", "created_at", "input_schema", "output_schema", "stream_id")
 
     def __init__(
         self,
@@ -402,11 +420,16 @@ class _ResolvedCall:
         output_schema: pa.Schema,
         input_schema: pa.Schema,
         stream_id: str,
+        created_at: int | None = None,
     ) -> None:
         self.call_state = call_state
         self.output_schema = output_schema
         self.input_schema = input_schema
         self.stream_id = stream_id
+        # When the call token this was parsed from was minted; ``None`` for
+        # the instance ``/init`` caches directly (its token is being minted
+        # in the same breath, so "now" is the right reference there).
+        self.created_at = created_at
 
 
 class _CallStateCache:
@@ -453,11 +476,27 @@ class _CallStateCache:
             self._entries.move_to_end(key)
             return resolved
 
-    def put(self, call_id: bytes, auth: AuthContext | None, resolved: _ResolvedCall, now: float) -> None:
-        """Record ``resolved`` under ``call_id``, evicting the oldest if full."""
+    def put(
+        self,
+        call_id: bytes,
+        auth: AuthContext | None,
+        resolved: _ResolvedCall,
+        now: float,
+        *,
+        expires_at: float | None = None,
+    ) -> None:
+        """Record ``resolved`` under ``call_id``, evicting the oldest if full.
+
+        The entry lives until ``now + ttl`` unless ``expires_at`` names an
+        earlier or later absolute time.  The miss path passes the expiry of
+        the call token it just opened: a re-cached call must die with its
+        token, not a full TTL after whichever request happened to re-cache
+        it, or a warm process keeps serving a stream that every cold one
+        already rejects as expired.
+        """
         key = (call_id, self._identity(auth))
         with self._lock:
-            self._entries[key] = (now + self._ttl, resolved)
+            self._entries[key] = (now + self._ttl if expires_at is None else expires_at, resolved)
             self._entries.move_to_end(key)
             while len(self._entries) > self._max_entries:
                 self._entries.popitem(last=False)
